@@ -11,7 +11,7 @@
 From Coq Require Import String List ZArith NArith Bool.
 Import ListNotations.
 From Selfies Require Import Base Generated Lex Atoms Grammar Decoder StateFacts IndexSpec IndexCode Reader DocGrammar DecoderBasics
-  CompatFacts DecoderInv DecoderTree DecoderSum TokFacts DeriveOk WriterSim WriterFinal RingCount CompatTotal WfSpec NopFacts DocFinal.
+  CompatFacts DecoderInv DecoderTree DecoderSum TokFacts DeriveOk WriterSim WriterFinal RingCount CompatTotal WfSpec NopFacts DocFinal DocAccept.
 Local Open Scope string_scope.
 Local Open Scope Z_scope.
 
@@ -88,6 +88,30 @@ Theorem C02_decoder_refines_grammar : forall T (frs : list (list item)) attribut
                 read_smiles out = Some (relabel ord g).
 Proof. exact decoder_refines_grammar. Qed.
 
+(* "The string is rejected ... exactly when the derivation reaches a symbol outside the grammar": for well-formed
+   strings (no unclosed bracket) the decoder accepts exactly the strings the documented derivation accepts, and a
+   string the decoder rejects is rejected by the documented derivation (whose only rejection is a reached symbol
+   that is not a symbol of the grammar under the table). No bound on rings is needed here. *)
+Theorem C02_rejected_exactly_when : forall T (frs : list (list item)) attribute,
+  (exists c, assoc (lit "?") T = Some c) -> frs <> [] -> Forall wfd frs -> symbols_short (render_frags frs) ->
+  ((exists out, decoder T (render_frags frs) false attribute = Ok out) <-> (exists g, grammar_eval T (dtoks frs) = Ok g)).
+Proof. exact decoder_accepts_iff_grammar. Qed.
+
+Theorem C02_rejection_refines_grammar : forall T (frs : list (list item)) attribute e,
+  (exists c, assoc (lit "?") T = Some c) -> frs <> [] -> Forall wfd frs -> symbols_short (render_frags frs) ->
+  decoder T (render_frags frs) false attribute = Err e -> e = DecoderError /\ exists e', grammar_eval T (dtoks frs) = Err e'.
+Proof.
+  intros T frs attribute e Hq Hne Hwf Hs E. split; [|exact (decoder_reject_grammar T frs attribute e Hq Hne Hwf Hs E)].
+  destruct (decoder_total_ok_c T (render_frags frs) false attribute Hq (frags_ok_of_symbols _ false Hs)) as [[o Ho]|Hd]; congruence.
+Qed.
+
+(* non-vacuity of the rejection side: a string with a symbol outside the grammar in a reached position *)
+Example C02_rejection_example :
+  let frs := [[(lit "C", false); (lit "=C", false); (lit "Xx", false); (lit "O", false)]] in
+  Forall wfd frs /\ decoder default_constraints (render_frags frs) false false = Err DecoderError /\
+  grammar_eval default_constraints (dtoks frs) = Err DecoderError.
+Proof. split; [repeat constructor|split; vm_compute; reflexivity]. Qed.
+
 (* non-vacuity: a two-fragment string with a branch, rings, a clipped bond and a [nop] *)
 Example C02_refines_example :
   let frs := [[(lit "C", false); (lit "=C", false); (lit "Branch1", false); (lit "C", false); (lit "=O", false); (lit "nop", false);
@@ -128,6 +152,8 @@ Proof. exact derive_rejects. Qed.
 Print Assumptions C02_atom_rule_partial.
 Print Assumptions C02_output_denotes_graph_partial.
 Print Assumptions C02_decoder_refines_grammar.
+Print Assumptions C02_rejected_exactly_when.
+Print Assumptions C02_rejection_refines_grammar.
 Print Assumptions C02_rejection_is_decoder_error_partial.
 Print Assumptions C02_grammar_strings_accepted_partial.
 Print Assumptions C02_reached_unknown_symbol_rejected_partial.
